@@ -197,16 +197,21 @@ class PMEval(Evaluator):
             if name == "refractive_index" and len(args) == 2 and args[1] == CSETUP:
                 want = {"signal": P("p_omega_s"), "idler": P("p_omega_i"),
                         "pump": self.arith("+", P("p_omega_s"), P("p_omega_i"))}[tag]
-                if self.alias.get(args[0], args[0]) != want:
-                    self.fail(f"{tag}.refractive_index evaluated at {args[0]} (modelled accessor is at {want})", e)
-                return self.param(f"p_n_{sfx}")
+                a0 = self.alias.get(args[0], args[0])
+                if a0 == want:
+                    return self.param(f"p_n_{sfx}")
+                if a0 == P(f"p_omega_{sfx}0"):      # index at the beam's own centre frequency
+                    return self.param(f"p_n_{sfx}0")
+                self.fail(f"{tag}.refractive_index evaluated at {args[0]} (modelled accessors: at {want} and at the centre frequency)", e)
+            if name == "group_index" and len(args) == 2 and args[0] == CSETUP and args[1] == ("ENUM", "PeriodicPoling", "Off"):
+                return self.param(f"p_ng_{sfx}")
+            if name == "vacuum_wavelength" and not args:
+                return self.param(f"p_lambda_{sfx}")
+            if name == "frequency" and not args:
+                return self.param(f"p_omega_{sfx}0")
             if tag == "pump":
                 if name == "walkoff_angle" and args == [CSETUP]:
                     return self.param("p_rho")
-                if name == "vacuum_wavelength" and not args:
-                    return self.param("p_lambda_p")
-                if name == "frequency" and not args:
-                    return self.param("p_omega_p0")
             self.fail(f"spdc.{tag}.{name}(…) is not a modelled accessor", e)
         if rv == PP:
             args = [self.ev(a, env) for a in argexprs]
@@ -461,6 +466,21 @@ def gen_pm_integrand(repo, out):
         body.append(f"(* ---- JointSpectrum::{meth} ---- *)\n"
                     f"Definition pm_{meth} (Q : (R -> C) -> R -> R -> C) (p : pm_params) : {ty} :=\n  {v}.\n")
 
+    # ------------------------------------------------------------------ spdc/counts.rs
+    kpath = os.path.join(repo, "src/spdc/counts.rs")
+    kitems = parse_file(kpath)
+    allidx[("__file__", kpath)] = kitems
+    kev = PMEval(kpath, kitems, allidx)
+    kev.used_params = ev.used_params
+    it = find_fn(kitems, "get_counts_correction")
+    out.span("counts::get_counts_correction", it)
+    v = kev.call_fn(it, [SPDC])
+    if not kev.is_r(v):
+        raise Untranslatable(kpath, it.span[0], "get_counts_correction value")
+    body.append("(* ---- spdc/counts.rs ---- *)\n"
+                f"Definition pm_counts_correction (p : pm_params) : R :=\n  {v}.\n")
+    body.append(counts_shapes(kpath, kitems, jpath, jitems, out))
+
     # ------------------------------------------------------------------ with_swapped_signal_idler: the field permutation
     spath = os.path.join(repo, "src/spdc/spdc_obj.rs")
     sitems = parse_file(spath)
@@ -488,7 +508,71 @@ def gen_pm_integrand(repo, out):
 
 FIELDS = ["p_L", "p_phi_s", "p_phi_i", "p_theta_s", "p_theta_i", "p_theta_s_e", "p_theta_i_e", "p_wsx", "p_wsy", "p_wix", "p_wiy",
           "p_wpx", "p_wpy", "p_z0s", "p_z0i", "p_dirz_s", "p_dirz_i", "p_omega_s", "p_omega_i", "p_n_p", "p_n_s", "p_n_i", "p_rho",
-          "p_k_eff", "p_apod", "p_pp_on", "p_lambda_p", "p_omega_p0", "p_bw", "p_power", "p_deff", "p_thr"]
+          "p_k_eff", "p_apod", "p_pp_on", "p_lambda_p", "p_omega_p0", "p_bw", "p_power", "p_deff", "p_thr",
+          "p_lambda_s", "p_lambda_i", "p_omega_s0", "p_omega_i0", "p_n_s0", "p_n_i0", "p_n_p0", "p_ng_s", "p_ng_i", "p_ng_p"]
+
+
+def counts_shapes(kpath, kitems, jpath, jitems, out):
+    """counts_coincidences / counts_singles_signal / counts_singles_idler and JointSpectrum::jsi_singles_idler_range are iterator
+    pipelines (outside the expression subset): their shape is pinned and the fixed Coq rendering below is emitted."""
+    def P_(n):
+        return ("path", [n])
+
+    def pipeline(spec, method, a, b):
+        clo = ("closure", [("ptuple", [("pbind", "ws", False), ("pbind", "wi", False)])],
+               ("bin", "*", ("mcall", P_("s"), method, [P_(a), P_(b)]), P_("dw2")))
+        return ("bin", "*", P_("correction_factor"),
+                ("mcall", ("mcall", ("mcall", ("mcall", P_("ranges"), "as_steps", []), "into_par_iter", []), "map", [clo]), "sum", []))
+    own = ("mcall", P_("spdc"), "joint_spectrum", [P_("integrator")])
+    swp = ("call", ("path", ["JointSpectrum", "new"]),
+           [("mcall", ("mcall", P_("spdc"), "clone", []), "with_swapped_signal_idler", []), P_("integrator")])
+    common = [("let", ("ptuple", [("pbind", "dws", False), ("pbind", "dwi", False)]), None,
+               ("mcall", ("mcall", P_("ranges"), "steps", []), "division_widths", [])),
+              ("let", ("pbind", "dw2", False), None, ("bin", "*", P_("dws"), P_("dwi"))),
+              ("let", ("pbind", "correction_factor", False), None, ("call", P_("get_counts_correction"), [P_("spdc")]))]
+    want = {"counts_coincidences": (own, "jsi", "ws", "wi"), "counts_singles_signal": (own, "jsi_singles", "ws", "wi"),
+            "counts_singles_idler": (swp, "jsi_singles", "wi", "ws")}
+    for name, (spec, meth, a, b) in want.items():
+        it = find_fn(kitems, name)
+        out.span(f"counts::{name}", it)
+        stm = [s for s in it.body[1] if s[0] != "use"]
+        exp = [("let", ("pbind", "s", False), None, spec)] + common
+        if stm != exp or it.body[2] != pipeline(spec, meth, a, b):
+            raise Untranslatable(kpath, it.span[0], f"{name}: body no longer has the pinned shape "
+                                 "(spectrum of the setup / of the exchanged setup; argument order; correction factor of the unexchanged setup)")
+    it = find_fn(jitems, "jsi_singles_idler_range", "JointSpectrum")
+    out.span("joint_spectrum::JointSpectrum::jsi_singles_idler_range", it)
+    exp = [("let", ("pbind", "swapped", False), None,
+            ("mcall", ("mcall", ("field", P_("self"), "spdc"), "clone", []), "with_swapped_signal_idler", [])),
+           ("let", ("pbind", "idler_spectrum", False), None,
+            ("call", ("path", ["Self", "new"]), [P_("swapped"), ("field", P_("self"), "integrator")]))]
+    tail = ("mcall", ("mcall", ("mcall", P_("range"), "into_signal_idler_par_iterator", []), "map",
+                      [("closure", [("ptuple", [("pbind", "ws", False), ("pbind", "wi", False)])],
+                        ("mcall", P_("idler_spectrum"), "jsi_singles", [P_("wi"), P_("ws")]))]), "collect", [])
+    if [s for s in it.body[1] if s[0] != "use"] != exp or it.body[2] != tail:
+        raise Untranslatable(jpath, it.span[0], "jsi_singles_idler_range: body no longer has the pinned shape")
+    return """(* Rates.  S ws wi = scalars of the setup at the frequency pair (ws, wi); Ssw a b = scalars of
+   spdc.clone().with_swapped_signal_idler() at (a, b); p0 = scalars of the setup itself (only frequency-independent fields are
+   read by the correction); pts = the grid `ranges.as_steps()`; dw2 = dws * dwi; jsis = JointSpectrum::jsi_singles as a function of
+   the scalars (src/phasematch/singles.rs is not modelled here).  The parallel `sum` is rendered as a left-to-right real sum. *)
+Definition pm_grid_sum (f : R -> R -> R) (pts : list (R * R)) : R :=
+  fold_right Rplus 0 (map (fun x => f (fst x) (snd x)) pts).
+
+Definition pm_counts_coincidences (Q : (R -> C) -> R -> R -> C) (S : R -> R -> pm_params) (p0 : pm_params)
+    (pts : list (R * R)) (dw2 : R) : R :=
+  pm_counts_correction p0 * pm_grid_sum (fun ws wi => pm_jsi Q (S ws wi) * dw2) pts.
+
+Definition pm_counts_singles_signal (jsis : pm_params -> R) (S : R -> R -> pm_params) (p0 : pm_params)
+    (pts : list (R * R)) (dw2 : R) : R :=
+  pm_counts_correction p0 * pm_grid_sum (fun ws wi => jsis (S ws wi) * dw2) pts.
+
+Definition pm_counts_singles_idler (jsis : pm_params -> R) (Ssw : R -> R -> pm_params) (p0 : pm_params)
+    (pts : list (R * R)) (dw2 : R) : R :=
+  pm_counts_correction p0 * pm_grid_sum (fun ws wi => jsis (Ssw wi ws) * dw2) pts.
+
+Definition pm_jsi_singles_idler_range (jsis : pm_params -> R) (Ssw : R -> R -> pm_params) (pts : list (R * R)) : list R :=
+  map (fun x => jsis (Ssw (snd x) (fst x))) pts.
+"""
 
 
 def swap_permutation(spath, it):
